@@ -69,6 +69,17 @@ def variants(sc, b):
                 first = False
         sc2['conns'][0]['steps'] = new
         out.append(('trickle', sc2))
+    if ck.get('ping_rate') and not ck.get('ping_timeout') and not sc.get('react') and sessprop.sampled(sc, b, 3):
+        # a long quiet stretch: the idle waits of the behaviour repeated for 12 more ping periods (lateness of the automatic
+        # pings must not accumulate: each one within `poll` of its multiple of ping_rate)
+        sc3 = copy.deepcopy(sc)
+        st = sc3['conns'][0]['steps']
+        tail = st[-1:] if st and st[-1]['kind'] in ('eof', 'error', 'boom') else []
+        body = st[:len(st) - len(tail)]
+        n_more = int(12 * ck['ping_rate'] / max(1, ck.get('poll') or 1)) + 2
+        sc3['conns'][0]['steps'] = body + [{"kind": "timeout"} for _ in range(n_more)] + tail
+        sc3['max_waits'] = 400
+        out.append(('long-quiet', sc3))
     return out
 
 
